@@ -599,6 +599,92 @@ func PreflightTable(fl Flavour) []Scn {
 	return out
 }
 
+// MapFaultTable: the REST mapper answers the lookups of some kinds with a transient error (API
+// discovery degraded; NOT "no such kind") during the pass — exhaustively over mode x position of the
+// object of interest in a 3-object phase x its shape (valid; foreign namespace; cluster-scoped kind
+// with / without namespace; unregistered kind) x the set of failing kinds x what the store holds
+// under its name (nothing; an object naming the owner as controller / as plain owner, placed by a
+// third party where the object is one the owner could never have written; a stranger's object).
+func MapFaultTable(fl Flavour) []Scn {
+	var out []Scn
+	shapes := []func(p *PObj){
+		func(p *PObj) {},
+		func(p *PObj) { p.NS = "ns2" },
+		func(p *PObj) { p.Kind = "ClThing" },
+		func(p *PObj) { p.Kind = "ClThing"; p.NS = "ns1" },
+		func(p *PObj) { p.Kind = "ClThing"; p.NS = "ns2" },
+		func(p *PObj) { p.Kind = "Ghost" },
+	}
+	faults := [][]string{{"NsThing"}, {"ClThing"}, {"NsThing", "ClThing"}, {"Ghost"}}
+	states := []string{"", "own", "ownPlain", "foreign"}
+	n := 0
+	for _, mode := range []string{"reconcile", "teardown"} {
+		for pos := 0; pos < 3; pos++ {
+			for _, shape := range shapes {
+				for _, fault := range faults {
+					for _, state := range states {
+						n++
+						var objs []PObj
+						var store []SObj
+						for i, name := range []string{"a", "b", "c"} {
+							p := PObj{Kind: "NsThing", Name: name, CP: "Prevent", Payload: "x", DryRun: "accept"}
+							if !fl.NSOwner {
+								p.NS = "ns1"
+							}
+							if i == pos {
+								shape(&p)
+							}
+							objs = append(objs, p)
+							if p.Kind == "Ghost" {
+								continue
+							}
+							if i != pos {
+								if n%3 != 0 { // the regular objects of the phase are mostly rolled out
+									store = append(store, storeObjFor(fl, p, "own", "3", 0))
+								}
+							} else if state != "" {
+								store = append(store, storeObjFor(fl, p, state, "3", n%2))
+							}
+						}
+						out = append(out, Scn{Flavour: fl.Name, Mode: mode, Owner: baseOwner(fl), Prev: basePrev(fl), Objects: objs, Store: store,
+							MapErr: fault, MapErrClass: MapErrClasses[n%len(MapErrClasses)]})
+					}
+				}
+			}
+		}
+	}
+	return out
+}
+
+// RandomMapFault: a Random scenario in which the REST mapper fails for a random set of kinds, and
+// in which objects the scenario lists but does not hold in the store often exist all the same —
+// carrying an owner reference to the scenario's owner (controller or plain) placed by a third party.
+func RandomMapFault(r *rand.Rand, fl Flavour) Scn {
+	s := Random(r, fl)
+	s.MapErr = pick(r, [][]string{{"NsThing"}, {"ClThing"}, {"NsThing", "ClThing"}, {"Ghost"}, {"NsThing", "ClThing", "Ghost"}})
+	s.MapErrClass = pick(r, MapErrClasses)
+	for _, p := range s.Objects {
+		if p.Kind == "Ghost" || r.Intn(2) == 0 {
+			continue
+		}
+		ns := p.NS
+		if ns == "" {
+			ns = ownerNS(fl)
+		}
+		if p.Kind == "ClThing" {
+			ns = ""
+		}
+		held := false
+		for _, o := range s.Store {
+			held = held || (o.Kind == p.Kind && o.NS == ns && o.Name == p.Name)
+		}
+		if !held {
+			s.Store = append(s.Store, storeObjFor(fl, p, pick(r, []string{"own", "ownPlain"}), pick(r, RevClasses), r.Intn(60)))
+		}
+	}
+	return s
+}
+
 func pick[T any](r *rand.Rand, xs []T) T { return xs[r.Intn(len(xs))] }
 
 // Random scenario: 1-4 objects, arbitrary states, optional third-party interference.
@@ -730,6 +816,18 @@ func Tags(s Scn, out string) []string {
 	}
 	if len(s.Env) > 0 {
 		t = append(t, "env")
+	}
+	if len(s.MapErr) > 0 {
+		t = append(t, "mapErr", "mapErr="+strings.Join(s.MapErr, "+"), "mapErrClass="+s.MapErrClass)
+		hit := false
+		for _, p := range s.Objects {
+			for _, k := range s.MapErr {
+				hit = hit || p.Kind == k
+			}
+		}
+		if hit {
+			t = append(t, "mapErr-hit")
+		}
 	}
 	if s.Owner.Paused {
 		t = append(t, "paused")
